@@ -19,7 +19,7 @@ ASSUMPTIONS = [
     "shortcut (hash_only without with_unchanged): reported subset of the reference, every hidden key below a directory entry with equal truthy hash on both sides, and no hidden key is a file entry; hidden representational differences of sub-directory entries are counted",
 ]
 MONITORS = "multiset of (key, type) reported by diff() vs flat reference; rename pair validity and maximality; self-diff / swap / conservation relations on the implementation's own outputs"
-REQUIRED_COUNTERS = ["diffs", "with_renames_diffs", "renames_seen", "shortcut_diffs", "shortcut_branches_skipped", "kind_change_pairs",
+REQUIRED_COUNTERS = ["meta_cmp_key_projecting_to_none_diffs", "diffs", "with_renames_diffs", "renames_seen", "shortcut_diffs", "shortcut_branches_skipped", "kind_change_pairs",
                      "self_diffs", "swap_relations", "one_side_none", "shallow_diffs", "roots_diffs", "changes_classified", "meta_cmp_key_diffs"]
 
 ADD, MODIFY, RENAME, DELETE, UNCHANGED = "add", "modify", "rename", "delete", "unchanged"
@@ -52,7 +52,7 @@ def run_shard(ctx):
             r = rng.random()
             if r < 0.15:
                 continue  # dropped
-            meta = (rng.choice([1, 2, 3]), rng.random() < 0.2)
+            meta = (rng.choice([1, 2, 3]), rng.random() < 0.2, rng.choice([None, None, "e1", "e2"]))
             if r < 0.30:
                 h = rng.choice(pool)
             elif r < 0.36:
@@ -67,14 +67,14 @@ def run_shard(ctx):
             if rng.random() < 0.08 and len(k) < 4:
                 hv = out.pop(k)
                 out[(*k, "inner")] = hv
-                out[(*k, "inner2")] = (rng.choice(pool), (1, False))
+                out[(*k, "inner2")] = (rng.choice(pool), (1, False, None))
         dirs = sorted({k[:i] for k in out for i in range(1, len(k))})
         for dk in dirs:
             if rng.random() < 0.08:
                 for f in [f for f in out if f[: len(dk)] == dk]:
                     del out[f]
                 if not any(dk[:i] in out for i in range(1, len(dk))):
-                    out[dk] = (rng.choice(pool), (2, False))
+                    out[dk] = (rng.choice(pool), (2, False, None))
         # a moved sub-tree / file (rename candidates)
         for k in list(out):
             if rng.random() < 0.1 and out[k][0]:
@@ -83,7 +83,7 @@ def run_shard(ctx):
                 out[nk] = hv
         if rng.random() < 0.5:
             nk = (gen.name(rng, odd=0.2) + "-new",)
-            out[nk] = (rng.choice(pool), (1, False))
+            out[nk] = (rng.choice(pool), (1, False, None))
         # drop files that ended up below another file
         for k in sorted(out, key=len):
             if any(k[:i] in out for i in range(1, len(k))):
@@ -111,12 +111,12 @@ def run_shard(ctx):
             idx[dk] = DataIndexEntry(key=dk, meta=Meta(isdir=True), hash_info=hi, loaded=True)
             flat[dk] = (("md5", hi.value) if hi else None, ("dir",))
         for k, (h, meta) in fmap.items():
-            m = Meta(size=meta[0], isexec=meta[1]) if meta is not None else None
+            m = Meta(size=meta[0], isexec=meta[1], etag=meta[2]) if meta is not None else None
             hname, hval = (h.split(":", 1) if h and ":" in h else ("md5", h))
             hi = HashInfo(hname, hval) if h else None
             idx[k] = DataIndexEntry(key=k, meta=m, hash_info=hi)
             # info() gives a hash-bearing entry without Meta a default one
-            mt = ("file", meta[0], meta[1]) if meta is not None else (("file", None, False) if h else None)
+            mt = ("file", meta[0], meta[1], meta[2]) if meta is not None else (("file", None, False, None) if h else None)
             flat[k] = ((hname, hval) if h else None, mt)
         return idx, flat, used
 
@@ -136,6 +136,10 @@ def run_shard(ctx):
             return DELETE
         if a is None and b is None:
             return UNCHANGED
+        if cmpkey == "etag":
+            ka = a[3] if a[0] == "file" else None
+            kb = b[3] if b[0] == "file" else None
+            return MODIFY if ka != kb else UNCHANGED
         if cmpkey:
             ka = (a[0] == "dir", a[2] if a[0] == "file" else False)
             kb = (b[0] == "dir", b[2] if b[0] == "file" else False)
@@ -172,13 +176,17 @@ def run_shard(ctx):
         elif e.meta.isdir:
             m = ("dir",)
         else:
-            m = ("file", e.meta.size, e.meta.isexec)
+            m = ("file", e.meta.size, e.meta.isexec, e.meta.etag)
         return (h, m)
 
     def cmp_key_fn(meta):
         if meta is None:
             return meta
         return (meta.isdir, meta.isexec)
+
+    def cmp_key_etag(meta):
+        # a key that maps a real Meta to None when the field is unset (what push uses for cloud checksums)
+        return meta.etag if meta else None
 
     def under(k, roots):
         return any(k[: len(r)] == r for r in roots)
@@ -224,7 +232,7 @@ def run_shard(ctx):
                 meta_only = (not hash_only) and rng.random() < 0.25
                 with_renames = (not meta_only) and rng.random() < 0.4
                 shallow = rng.random() < 0.15
-                use_cmp = rng.random() < 0.3
+                use_cmp = rng.choice([False, False, False, True, "etag"])
                 roots = None
                 if rng.random() < 0.15:
                     cands = sorted({k[:i] for k in list(FA) + list(FB) for i in range(1, len(k) + 1)})
@@ -240,8 +248,10 @@ def run_shard(ctx):
                             roots = None
                 opts = {"with_unchanged": with_unchanged, "hash_only": hash_only, "meta_only": meta_only, "with_renames": with_renames, "shallow": shallow}
                 if use_cmp:
-                    opts["meta_cmp_key"] = cmp_key_fn
+                    opts["meta_cmp_key"] = cmp_key_etag if use_cmp == "etag" else cmp_key_fn
                     res.count("meta_cmp_key_diffs")
+                    if use_cmp == "etag":
+                        res.count("meta_cmp_key_projecting_to_none_diffs")
                 if roots:
                     opts["roots"] = roots
                     res.count("roots_diffs")
@@ -250,7 +260,7 @@ def run_shard(ctx):
                 if FA != FB:
                     res.nontrivial(sorted(FA.items(), key=repr), sorted(FB.items(), key=repr), sorted(opts.items(), key=repr))
                 detail = {"old": {"/".join(k): v for k, v in FA.items()}, "new": {"/".join(k): v for k, v in FB.items()},
-                          "opts": {k: (v if k != "meta_cmp_key" else "isdir+isexec") for k, v in opts.items()}}
+                          "opts": {k: (v if k != "meta_cmp_key" else ("etag" if use_cmp == "etag" else "isdir+isexec")) for k, v in opts.items()}}
                 res.sample({"old_keys": len(FA), "new_keys": len(FB), "opts": detail["opts"]})
 
                 # rebuild fresh indexes for every diff: info() may decorate entries
